@@ -2182,6 +2182,21 @@ fn collect_light_animation_data<R: Read + Seek>(
     Ok(animation_data)
 }
 
+/// Read `count` elements of `element_size` bytes at the reader's current position. The
+/// count comes straight from the file, so the bytes are read through a length-limited
+/// adapter instead of being allocated up front.
+fn read_counted_bytes<R: Read>(reader: &mut R, count: u32, element_size: usize) -> Result<Vec<u8>> {
+    let total = count as u64 * element_size as u64;
+    let mut data = Vec::new();
+    reader.by_ref().take(total).read_to_end(&mut data)?;
+    if data.len() as u64 != total {
+        return Err(M2Error::Io(std::io::Error::from(
+            std::io::ErrorKind::UnexpectedEof,
+        )));
+    }
+    Ok(data)
+}
+
 /// Collects raw embedded skin data for pre-WotLK M2 files (version <= 263)
 ///
 /// Pre-WotLK models have skin profile data embedded directly in the M2 file.
@@ -2274,9 +2289,7 @@ fn collect_embedded_skin_data<R: Read + Seek>(
         // Read indices data (u16 per entry)
         let indices = if n_indices > 0 && ofs_indices > 0 {
             reader.seek(SeekFrom::Start(ofs_indices as u64))?;
-            let mut data = vec![0u8; n_indices as usize * 2];
-            reader.read_exact(&mut data)?;
-            data
+            read_counted_bytes(reader, n_indices, 2)?
         } else {
             Vec::new()
         };
@@ -2284,9 +2297,7 @@ fn collect_embedded_skin_data<R: Read + Seek>(
         // Read triangles data (u16 per entry)
         let triangles = if n_triangles > 0 && ofs_triangles > 0 {
             reader.seek(SeekFrom::Start(ofs_triangles as u64))?;
-            let mut data = vec![0u8; n_triangles as usize * 2];
-            reader.read_exact(&mut data)?;
-            data
+            read_counted_bytes(reader, n_triangles, 2)?
         } else {
             Vec::new()
         };
@@ -2295,9 +2306,7 @@ fn collect_embedded_skin_data<R: Read + Seek>(
         let properties = if n_properties > 0 && ofs_properties > 0 {
             reader.seek(SeekFrom::Start(ofs_properties as u64))?;
             // Properties are typically 4 bytes per entry (bone indices + padding)
-            let mut data = vec![0u8; n_properties as usize * 4];
-            reader.read_exact(&mut data)?;
-            data
+            read_counted_bytes(reader, n_properties, 4)?
         } else {
             Vec::new()
         };
@@ -2305,9 +2314,7 @@ fn collect_embedded_skin_data<R: Read + Seek>(
         // Read submeshes data
         let submeshes = if n_submeshes > 0 && ofs_submeshes > 0 {
             reader.seek(SeekFrom::Start(ofs_submeshes as u64))?;
-            let mut data = vec![0u8; n_submeshes as usize * submesh_size];
-            reader.read_exact(&mut data)?;
-            data
+            read_counted_bytes(reader, n_submeshes, submesh_size)?
         } else {
             Vec::new()
         };
@@ -2316,9 +2323,7 @@ fn collect_embedded_skin_data<R: Read + Seek>(
         // SkinBatch: 2 bytes (flags/priority) + 22 bytes (11 u16 fields) = 24 bytes
         let batches = if n_batches > 0 && ofs_batches > 0 {
             reader.seek(SeekFrom::Start(ofs_batches as u64))?;
-            let mut data = vec![0u8; n_batches as usize * 24];
-            reader.read_exact(&mut data)?;
-            data
+            read_counted_bytes(reader, n_batches, 24)?
         } else {
             Vec::new()
         };
